@@ -146,6 +146,7 @@ class Impl:
         from s3transfer import exceptions
         self.ex = exceptions
         self.sched_mode = sched_ns is not None
+        self.sched_ns_sched = getattr(sched_ns, 'sched', None)
         if sched_ns is not None:
             # the coordinator creates its locks / event from the scheduler's shim:
             # every Lock.acquire / release and Event.set / wait is a yield point
@@ -158,8 +159,14 @@ class Impl:
             if isinstance(base_status, property) and getattr(sched_ns, 'sched', None) is not None:
                 sched_ = sched_ns.sched
 
+                readers = self.status_readers = set()     # threads inside a top-level done()/status op
+
                 def _yielding_status(self_):
-                    sched_.yield_point('status-read')
+                    # only the reads made by a thread's own top-level done() / status observation are
+                    # scheduling points: finer yields inside announce_done or inside callback scripts
+                    # would exhibit interleavings below the granularity of the model's merges
+                    if id(sched_.me()) in readers:
+                        sched_.yield_point('status-read')
                     return base_status.fget(self_)
                 cls_ = type('TransferCoordinator', (TransferCoordinator,), {'status': property(_yielding_status)})
             else:
@@ -243,6 +250,14 @@ class Impl:
     def do_call(self, tok, top):
         c, f = self.c, self.f
         p = tok.split(':')
+        if p[0] in ('done', 'status') and top and self.sched_mode and getattr(self, 'status_readers', None) is not None \
+                and self.in_cb is None:
+            me = id(self.sched_ns_sched.me())
+            self.status_readers.add(me)
+            try:
+                return self.do_call(tok, top=False)
+            finally:
+                self.status_readers.discard(me)
         if p[0] == 'done':
             return 'T' if f.done() else 'F'
         if p[0] == 'status':
@@ -1367,7 +1382,7 @@ def real_lock_confirmation(ctx, rep, cases_with_model):
 
 
 def run(ctx):
-    ok = common.proofs(ctx, 'C17', EXTRACT, COMPONENTS)
+    ok = common.proofs(ctx, ['C17', 'C17Sys'], EXTRACT, COMPONENTS)
     thorough = ctx.thorough()
     ctx.assumptions = [
         'exceptions given to set_exception are ordinary (truthy) exception instances; result values are not compared for truthiness',
@@ -1505,7 +1520,7 @@ def replay(ctx, data):
             return hang_real(env, ops, 2.0)
         return bool(viol)
     if isinstance(case, dict) and 'programs' in case and 'choices' in case:
-        common.proofs(ctx, 'C17', EXTRACT, COMPONENTS)
+        common.proofs(ctx, ['C17', 'C17Sys'], EXTRACT, COMPONENTS)
         r, problems = replay_schedule(case)
         print('results:', r['results'], 'final:', r['final'])
         print('problems:', problems)
